@@ -204,6 +204,109 @@ fn linearizable(evs: &[SEv], cap: usize) -> bool {
     go(evs, &mut vec![false; evs.len()], &mut vec![], cap, evs.len(), &mut std::collections::HashSet::new())
 }
 
+// ---------------------------------------------------------------------------------------------------------------- queues
+
+trait QueueApi: Send + Sync { fn enq(&self, v: u32) -> bool; fn deq(&self) -> Option<u32>; }
+macro_rules! qimpl { ($ty:ty) => { impl QueueApi for $ty {
+    fn enq(&self, v: u32) -> bool { reactive_mutiny::ogre_std::ogre_queues::OgreQueue::enqueue(self, v).is_none() }
+    fn deq(&self) -> Option<u32> { reactive_mutiny::ogre_std::ogre_queues::OgreQueue::dequeue(self) }
+} } }
+qimpl!(reactive_mutiny::ogre_std::ogre_queues::atomic::NonBlockingQueue<u32, 2>);
+qimpl!(reactive_mutiny::ogre_std::ogre_queues::atomic::NonBlockingQueue<u32, 4>);
+qimpl!(reactive_mutiny::ogre_std::ogre_queues::full_sync::NonBlockingQueue<u32, 2>);
+qimpl!(reactive_mutiny::ogre_std::ogre_queues::full_sync::NonBlockingQueue<u32, 4>);
+fn filter_q(tag: &str) -> bool { tag.starts_with("am.") || tag.starts_with("fs.") || tag.starts_with("sync.") }
+
+/// the two stand-alone non-blocking queues (pool + ring of ids): result-level under the scheduler (every ring hook is a
+/// yield point), judged by a FIFO / emptiness / fullness oracle on the real-time order of the calls
+fn run_queue(atomic: bool, n: usize, seed: u64, replay: Option<Vec<u8>>) -> (sched::Outcome, Vec<(String, String)>, String) {
+    use reactive_mutiny::ogre_std::ogre_queues::{atomic::NonBlockingQueue as AQ, full_sync::NonBlockingQueue as FQ, OgreQueue};
+    let q: Arc<dyn QueueApi> = match (atomic, n) {
+        (true, 2) => Arc::new(<AQ<u32, 2> as OgreQueue<u32>>::new("q")), (true, _) => Arc::new(<AQ<u32, 4> as OgreQueue<u32>>::new("q")),
+        (false, 2) => Arc::new(<FQ<u32, 2> as OgreQueue<u32>>::new("q")), (false, _) => Arc::new(<FQ<u32, 4> as OgreQueue<u32>>::new("q")),
+    };
+    let mut rng = Rng::new(seed ^ 0x51);
+    let nt = rng.range(2, 4) as usize;
+    let cfgkey = format!("{}queue/N{n}/t{nt}", if atomic { "atomic" } else { "fullsync" });
+    let evs: Arc<Mutex<Vec<SEv>>> = Arc::new(Mutex::new(vec![]));
+    let done = Arc::new(AtomicUsize::new(0));
+    let mut bodies: Vec<Body> = vec![];
+    for t in 0..nt {
+        let nops = rng.range(2, n as u64 + 3) as usize;
+        let ops: Vec<bool> = (0..nops).map(|_| rng.chance(3, 5)).collect();
+        let (q, evs, done) = (q.clone(), evs.clone(), done.clone());
+        bodies.push(Box::new(move |ctx| {
+            for (i, is_enq) in ops.into_iter().enumerate() {
+                if is_enq {
+                    let v = (t as u32 + 1) * 1000 + i as u32;
+                    let c = ctx.call(t, &format!("enq {v}"));
+                    let ok = q.enq(v);
+                    let r = ctx.ret(&format!("enq {ok}"));
+                    evs.lock().unwrap().push(SEv { t, push: true, v, ok, call: c, ret: r });
+                } else {
+                    let c = ctx.call(t, "deq");
+                    let got = q.deq();
+                    let r = ctx.ret(&match got { Some(v) => format!("deq {v}"), None => "deq none".into() });
+                    evs.lock().unwrap().push(SEv { t, push: false, v: got.unwrap_or(0), ok: got.is_some(), call: c, ret: r });
+                }
+            }
+            done.fetch_add(1, SeqCst);
+        }));
+    }
+    {
+        let (q, evs, done) = (q.clone(), evs.clone(), done.clone());
+        bodies.push(Box::new(move |ctx| {
+            let me = ctx.tid();
+            let d2 = done.clone();
+            ctx.block_until(Box::new(move || d2.load(SeqCst) == nt));
+            loop {
+                let c = ctx.call(me, "deq");
+                let got = q.deq();
+                let r = ctx.ret(&match got { Some(v) => format!("deq {v}"), None => "deq none".into() });
+                evs.lock().unwrap().push(SEv { t: me, push: false, v: got.unwrap_or(0), ok: got.is_some(), call: c, ret: r });
+                if got.is_none() { break }
+            }
+            let mut acc = 0;
+            for i in 0..n + 1 { ctx.call(me, &format!("enq {}", 9000 + i)); let ok = q.enq(9000 + i as u32); ctx.ret(&format!("enq {ok}")); if ok { acc += 1 } }
+            ctx.note(format!("refill {acc}"));
+        }));
+    }
+    let mut cfg = Config::new(seed, filter_q);
+    cfg.replay = replay;
+    let o = sched::run(cfg, bodies);
+    let mut viol = vec![];
+    if o.verdict != Verdict::Completed { viol.push(("no_progress".into(), format!("{:?}", o.verdict))); std::mem::forget(q); return (o, viol, cfgkey) }
+    let evs = evs.lock().unwrap().clone();
+    let enq: Vec<&SEv> = evs.iter().filter(|e| e.push && e.ok).collect();
+    let deq: Vec<&SEv> = evs.iter().filter(|e| !e.push && e.ok).collect();
+    let mut seen = std::collections::HashSet::new();
+    for d in &deq {
+        if !enq.iter().any(|e| e.v == d.v) { viol.push(("invented".into(), format!("dequeued {} which was never enqueued", d.v))); }
+        if !seen.insert(d.v) { viol.push(("duplicate".into(), format!("{} dequeued twice", d.v))); }
+    }
+    for e in &enq { if !seen.contains(&e.v) { viol.push(("lost".into(), format!("{} was enqueued but never dequeued although the queue was drained", e.v))); } }
+    for a in &enq { for b in &enq { if a.ret < b.call {
+        if let (Some(da), Some(db)) = (deq.iter().find(|d| d.v == a.v), deq.iter().find(|d| d.v == b.v)) {
+            if db.ret < da.call { viol.push(("fifo".into(), format!("{} was enqueued before {} but dequeued strictly after it", a.v, b.v))); }
+        }
+    } } }
+    for e in evs.iter().filter(|e| !e.push && !e.ok) {
+        let en = enq.iter().filter(|a| a.ret < e.call).count();
+        let dn = deq.iter().filter(|d| d.call < e.ret).count();
+        if en > dn { viol.push(("empty_while_pending".into(), format!("thread {} was answered `empty` (trace lines {}..{}) although {en} enqueues had completed before the call and only {dn} dequeues had started before its return", e.t, e.call, e.ret))); }
+    }
+    // `full` (relaxed: slots held by operations in progress count as taken): claims started before the return minus
+    // dequeues completed before the call must reach the capacity
+    for e in evs.iter().filter(|e| e.push && !e.ok) {
+        let s = evs.iter().filter(|o| o.push && o.call < e.ret && !std::ptr::eq(*o, e) && !(!o.ok && o.ret < e.call)).count();
+        // a dequeue in progress also holds a pool slot until it releases it
+        let d_done = deq.iter().filter(|d| d.ret < e.call).count();
+        if s < n + d_done { viol.push(("full_while_room".into(), format!("thread {} was answered `full` (trace lines {}..{}) although at most {s} enqueues minus {d_done} completed dequeues = fewer than N={n} slots can have been taken", e.t, e.call, e.ret))); }
+    }
+    for l in &o.trace { if let Some(k) = l.strip_prefix("refill ") { if k.parse::<usize>().ok() != Some(n) { viol.push(("capacity_not_restored".into(), format!("after draining, {k} of {} enqueues were accepted (expected exactly N={n})", n + 1))); } } }
+    (o, viol, cfgkey)
+}
+
 // ---------------------------------------------------------------------------------------------------------------- free run
 
 fn free_run(seed: u64) -> Vec<(String, String)> {
@@ -272,16 +375,18 @@ fn main() {
         let (o, viol, cfgkey) = match sub.as_str() {
             "incavg" => run_incavg(seed, single.clone()),
             "stack" => run_stack(false, n, seed, single.clone()),
+            "aqueue" => run_queue(true, if n == 8 { 4 } else { n }, seed, single.clone()),
+            "fqueue" => run_queue(false, if n == 8 { 4 } else { n }, seed, single.clone()),
             _ => run_stack(true, n, seed, single.clone()),
         };
         let cfg = if sub == "incavg" { format!("cfg model=incavg seed={seed} run={i}") } else { format!("cfg model=stack N={n} seed={seed} run={i}") };
         let nontrivial = match sub.as_str() {
             // a CAS that had to be retried
             "incavg" => { let mut retried = false; let mut last: std::collections::HashMap<String, bool> = Default::default(); for l in &o.trace { let w: Vec<&str> = l.split(' ').collect(); if w[0] == "pt" && w[2] == "ia.cas" { if *last.get(w[1]).unwrap_or(&false) { retried = true } last.insert(w[1].to_string(), true); } else if w[0] == "ret" { last.insert(w[1].to_string(), false); } } retried }
-            _ => o.trace.iter().any(|l| l.ends_with("pushed false") || l.ends_with("popped none")) || { let mut spin = false; let mut prev: Option<&String> = None; for l in &o.trace { if l.contains(" st.swap ") { if prev == Some(l) { spin = true } } prev = Some(l); } spin },
+            _ => o.trace.iter().any(|l| l.ends_with("pushed false") || l.ends_with("popped none") || l.ends_with("enq false") || l.ends_with("deq none")) || { let mut spin = false; let mut prev: Option<&String> = None; for l in &o.trace { if l.contains(" st.swap ") { if prev == Some(l) { spin = true } } prev = Some(l); } spin },
         };
         rep.add_run(&o.trace, nontrivial, &cfgkey, &format!("{:?}", o.verdict));
-        out.write_run(&cfg, &o.trace);
+        if sub != "aqueue" && sub != "fqueue" { out.write_run(&cfg, &o.trace); }
         for (k, d) in viol {
             let header = vec![format!("cmd misc sub={sub} runs=1 seedx={seed} choices={}", choices_str(&o.choices)), format!("violation {k}: {d}"), cfg.clone()];
             let path = write_replay(&replay_dir, &format!("{pid}-{sub}-seed{seed}-{k}"), &header, &o.trace);
